@@ -222,7 +222,7 @@ class FormattedValue(ExpressionPrinter):
     def visit_Bytes(self, node):
         if self.printer.previous_token in [TokenTypes.Identifier, TokenTypes.Keyword, TokenTypes.SoftKeyword]:
             self.printer.delimiter(' ')
-        self.printer.append(str(Bytes(node.s, self.allowed_quotes)), TokenTypes.NonNumberLiteral)
+        self.printer.append(str(Bytes(node.s, self.allowed_quotes, self.pep701)), TokenTypes.NonNumberLiteral)
 
     def visit_JoinedStr(self, node):
         assert isinstance(node, ast.JoinedStr)
@@ -384,10 +384,11 @@ class Bytes(object):
 
     """
 
-    def __init__(self, b, allowed_quotes):
+    def __init__(self, b, allowed_quotes, pep701=False):
         self._b = b
         self.allowed_quotes = allowed_quotes
         self.current_quote = None
+        self.pep701 = pep701
 
     def _can_quote(self, c):
         if self.current_quote is None:
@@ -424,7 +425,14 @@ class Bytes(object):
 
             if literal == '':
                 literal = 'b' + self.current_quote
-            literal += chr(b)
+
+            if self.pep701 and b == ord(b'\\'):
+                # Backslash escapes are allowed in f-string expression parts from python 3.12
+                literal += '\\\\'
+            elif self.pep701 and (b == 0 or b >= 128):
+                literal += '\\x{:02x}'.format(b)
+            else:
+                literal += chr(b)
 
         if literal:
             literal += self.current_quote
@@ -434,7 +442,7 @@ class Bytes(object):
         if self._b == b'':
             return 'b' + str(min(self.allowed_quotes, key=len)) * 2
 
-        if b'\0' in self._b or b'\\' in self._b:
+        if not self.pep701 and (b'\0' in self._b or b'\\' in self._b):
             raise ValueError('Impossible to represent a %r character in f-string expression part')
 
         if b'\n' in self._b or b'\r' in self._b:
